@@ -332,6 +332,41 @@ def rule_rust(ctx):
         ctx.ok("R1", "satisfies_text_predicates:present", "QueryMatch::satisfies_text_predicates analysed (%d blocks)" % len(sat[0].blocks), nontrivial=False)
 
 
+RANGE_SETTERS = {"ts_query_cursor_set_byte_range", "ts_query_cursor_set_point_range", "ts_query_cursor_set_containing_byte_range", "ts_query_cursor_set_containing_point_range",
+                 "ts_query_cursor_new", "ts_query_cursor_exec"}
+
+
+def rule_both_units(ctx, F):
+    """R3: a cursor's range is given either in bytes or in points; the other unit is left at 0 / MAX.  So wherever the
+    cursor compares a node against one bound of its range it compares in both units: in every function (but the setters)
+    the byte bound and the point bound of `included_range` / `containing_range` are read equally often."""
+    from collections import Counter
+    n = 0
+    for fn in F.fn_list:
+        if not fn.file.endswith("query.c") or fn.name in RANGE_SETTERS or not fn.blocks:
+            continue
+        c = Counter()
+        for pt, e in fn.points():
+            for x in own_walk(e):
+                if x.get("k") == "mem" and x.get("f") in ("start_byte", "start_point", "end_byte", "end_point"):
+                    b = strip(x["b"])
+                    if b.get("k") == "mem" and b.get("f") in ("included_range", "containing_range"):
+                        c[(b["f"], x["f"])] += 1
+        for rng in ("included_range", "containing_range"):
+            for side in ("start", "end"):
+                nb, np_ = c[(rng, side + "_byte")], c[(rng, side + "_point")]
+                if nb == 0 and np_ == 0:
+                    continue
+                n += 1
+                key = "%s:%s.%s-in-both-units" % (fn.name, rng, side)
+                if nb == np_:
+                    ctx.ok("R3", key, "%s compares against %s.%s in bytes and in points (%d each)" % (fn.name, rng, side, nb), nontrivial=False)
+                else:
+                    ctx.bad("R3", key, "%s reads %s.%s_byte %d time(s) but %s.%s_point %d time(s): under a range given in the other unit the missing comparison never fires "
+                            "(a point range leaves start_byte at 0), so captures or matches outside the range are returned" % (fn.name, rng, side, nb, rng, side, np_))
+    ctx.floor("range bounds compared in both units", n, 3)
+
+
 def rule_definite(ctx, F):
     """D1: next_capture hands out the captures of an unfinished match only when the match cannot fail any more.
     ts_query_cursor__first_in_progress_capture reports `*is_definite` — in every case in which it is true the state's
@@ -474,6 +509,7 @@ def run(ctx):
         rule_range(ctx, F)
         rule_sorted(ctx, F)
         rule_definite(ctx, F)
+        rule_both_units(ctx, F)
     rule_rust(ctx)
     return ctx.finish(
         "Pairing and field-coverage rules over query.c: every discard of a query state under capture-list-pool exhaustion is preceded by "
